@@ -263,6 +263,16 @@ def term(expr: ast.AST | None, env: dict[str, Term] | None = None) -> Term:
         names = [a.arg for a in expr.args.args]
         inner = {k: v for k, v in env.items() if k not in names}
         return ('lambda', tuple(names), term(expr.body, inner))
+    if isinstance(expr, (ast.ListComp, ast.GeneratorExp)) and len(expr.generators) == 1 and not expr.generators[0].ifs and isinstance(expr.generators[0].target, ast.Name) \
+            and isinstance(expr.generators[0].iter, (ast.Tuple, ast.List)) and not any(isinstance(x, ast.Starred) for x in expr.generators[0].iter.elts) and 1 <= len(expr.generators[0].iter.elts) <= 6:
+        # [f(x) for x in (a, b)] is [f(a), f(b)]
+        g = expr.generators[0]
+        items = []
+        for x in g.iter.elts:
+            inner = dict(env)
+            inner[g.target.id] = term(x, env)
+            items.append(term(expr.elt, inner))
+        return ('list',) + tuple(items)
     if isinstance(expr, (ast.ListComp, ast.GeneratorExp, ast.SetComp)):
         inner = dict(env)
         gens = []
@@ -301,6 +311,8 @@ def bind_target(target: ast.AST, value: Term, env: dict[str, Term]) -> None:
                         bind_target(e, ('sub', value, ('const', '0')), env)  # (y,) = v is y = v[0]
                     else:
                         part = _flatten_part(value, idx) if len(target.elts) == 2 else None
+                        if part is None and isinstance(value, tuple) and value and value[0] in ('list', 'tuple') and len(value) - 1 == len(target.elts):
+                            part = value[1 + i]
                         bind_target(e, part if part is not None else ('item', value, idx), env)
 
 
